@@ -647,7 +647,19 @@ Error Message: {}
                 blob = self._get_session_blob(
                     key, service, username, algorithm
                 )
-                if not key.verify_ssh_sig(blob, sig):
+                # The signature must use the algorithm named in the request
+                # (which was checked against our enabled algorithms above),
+                # not just any algorithm the key class can verify.
+                expected_algo = algorithm.replace("-cert-v01@openssh.com", "")
+                sig_algo = sig.get_string()
+                sig.rewind()
+                if sig_algo != expected_algo.encode("utf-8"):
+                    self._log(
+                        INFO,
+                        "Auth rejected: signature algorithm does not match request",  # noqa
+                    )
+                    result = AUTH_FAILED
+                elif not key.verify_ssh_sig(blob, sig):
                     self._log(INFO, "Auth rejected: invalid signature")
                     result = AUTH_FAILED
         elif method == "keyboard-interactive":
